@@ -571,6 +571,8 @@ def run(chk):
     d3(chk, prog)
     d3c(chk, prog)
     d3b(chk, prog)
+    from . import C15
+    C15.low_coverage(chk, prog)  # which bins skip_low takes out before segmenting (C15 LOW rule)
     from . import C14
     C14.d2(chk, prog)            # the HMM methods' segments are the runs of equal state within a chromosome (arm): squash_by_groups (C14-D2 rule)
     d4(chk, prog)
